@@ -81,16 +81,19 @@ IMG_RULES = WRAP_RULES + [("wrapped($a, *args, **kwargs)", "(callImg g {a})", "b
 WINIT_RULES = WRAP_RULES + [("wrapped($a, *args, **kwargs)[0]", "((callArr f {a}).map Prod.fst)", "bind"),
                             ("wrapped($a, *args, **kwargs)", "(callArr f {a})", "bind")]
 
+# one rule per attribute access / call (so a mask held in a temporary, a closure or an extracted helper keeps the
+# translation): `x.mask` is the mask of an image object or the data of a mask (class HasMask)
 REBUILD_RULES = [
     ("$a.shape[1:]", "(sh {a})"),
-    ("image.shape", "(sh {image}.pixels)"),
-    ('hasattr(image, "mask")', "({image}.mask.isSome)"),
-    ("image.mask.resize($s)", "((Img.maskE {image}).bind fun m => resizeMask m {s})", "bind"),
-    ("image.mask.copy()", "(Img.maskE {image})", "bind"),
-    ("sample_mask_for_centres(image.mask.mask, $c)", "((Img.maskE {image}).bind fun m => genSampleMask m {c})", "bind"),
+    ("$im.shape", "(sh {im}.pixels)"),
+    ('hasattr($im, "mask")', "({im}.mask.isSome)"),
+    ("$m.resize($s)", "(resizeMask {m} {s})", "bind"),
+    ("$m.copy()", "{m}"),
+    ("sample_mask_for_centres($m, $c)", "(genSampleMask {m} {c})", "bind"),
+    ("$x.mask", "(HasMask.maskOf {x})", "bind"),
     ("MaskedImage($p, mask=$m, copy=False)", "(Img.mk {p} (some {m}) [])"),
     ("Image($p, copy=False)", "(Img.mk {p} none [])"),
-    ("image.has_landmarks", "(!({image}.lms.isEmpty))"),
+    ("$im.has_landmarks", "(!({im}.lms.isEmpty))"),
     ("np.array($a) / np.array($b)", "(ratio {a} {b})"),
     ("lm_centres_correction($c)", "(genCentresCorrection {c})"),
 ]
